@@ -365,6 +365,11 @@ def stepOp (st : DriverState) (toks : List String) : DriverState × String :=
   | ["C", entry, id, p, s] => opCrypt st entry id p s none
   | ["C", entry, id, p, s, sz] => opCrypt st entry id p s (some sz)
   | ["P"] => (st, opPreferred st.cfg)
+  | ["TBL"] =>
+    -- the dispatch table and default prefix of the current configuration, as the model of gen-crypt-hashes-h computes them
+    let rows := st.cfg.table.map fun r =>
+      s!"{showBytes r.pfx},{r.plen},{r.crypt.name},{r.gensalt.name},{r.nrbytes},{if r.strong then 1 else 0}"
+    (st, "tbl=" ++ ";".intercalate rows ++ " default=" ++ (match st.cfg.dflt with | none => "NULL" | some p => showBytes p))
   | ["OS", b] =>
     match argBytes b with
     | some (some bs) => ({ st with osBytes := bs }, "ok")
